@@ -104,13 +104,16 @@ func runRing(c ringCase, rec *pb.Rec) error {
 			}
 		case rPushExpand:
 			next++
-			if len(model) == capNow {
-				capNow *= 2
-				rec.ClassIf(wrapped, "expand wrapped")
-				interesting = interesting || wrapped
-			}
+			full := len(model) == capNow
 			r.PushWithExpand(next)
 			model = append(model, next)
+			if full { // by how much a full ring grows is not part of the property: the new capacity is taken from Cap()
+				rec.ClassIf(wrapped, "expand wrapped")
+				interesting = interesting || wrapped
+				if capNow = r.Cap(); capNow < len(model) {
+					return fmt.Errorf("%s: PushWithExpand on a full ring: Cap() = %d with %d elements held", where, capNow, len(model))
+				}
+			}
 		case rRecap:
 			want := o.A > 0 && o.A != capNow && o.A >= len(model)
 			got := r.Recap(o.A)
